@@ -26,7 +26,7 @@ KEY_A = bytes(range(32))
 KEY_B = b" \t" + bytes(255 - i for i in range(28)) + b"\r\n"      # white space at either end is key material like any other byte
 PLAIN = bytes((7 * i + 3) % 256 for i in range(64))
 MAX_FAILED = 1
-FILE_ALPHABET = ["absent", "A", "B", "bad0", "bad10", "bad31", "bad33", "bad64", "nodir"]
+FILE_ALPHABET = ["absent", "A", "B", "bad0", "bad10", "bad16", "bad24", "bad31", "bad33", "bad64", "nodir"]      # 16 / 24: AES key sizes, but not key files
 
 
 def content_of(sym, binding):
@@ -36,7 +36,7 @@ def content_of(sym, binding):
         return KEY_B
     if sym.startswith("bad"):
         return b"k" * int(sym[3:])
-    return binding[sym]
+    return binding.get(sym, b"")         # a key the machine says was generated but that never reached the file: matches nothing
 
 
 # ---------------------------------------------------------------------------------------------
@@ -90,6 +90,7 @@ class KFModel:
                 ops.append(["exit", i])
                 ops.append(["exitx", i])      # the block is left through an exception
             ops.append(["encrypt", i])
+            ops.append(["generate", i])       # the public request for a new key file: replaces the file, never the session's key
             for s in self.store:
                 ops.append(["decrypt", i, s])
             if d == 0:
@@ -129,6 +130,13 @@ class KFModel:
             if o[0] == 0:
                 o[1] = None
                 self.prune()
+            return ("ok", None)
+        if name == "generate":
+            if self.file == "nodir":
+                return ("raise", "cannot-create")
+            self.gen += 1
+            self.file = "G%d" % self.gen
+            self.prune()
             return ("ok", None)
         if name == "encrypt":
             if o[0] == 0:
@@ -229,6 +237,9 @@ class World:
                 err = RuntimeError("the block failed")
                 r = o.__exit__(RuntimeError, err, None)
                 return ("ok", None) if not r else ("raise", AssertionError("__exit__ swallowed the exception"))
+            if name == "generate":
+                r = o.generate_key()
+                return ("ok", None) if r is None else ("raise", AssertionError("generate_key returned %r" % (r,)))
             if name == "encrypt":
                 sv = o.encrypt(PLAIN, method="xor")
                 return ("ok", sv)
@@ -332,6 +343,11 @@ def run_job(job, ctx):
 
 def _sync(w, op, exp, real):
     """After a step both sides agree on: learn generated keys, record ciphertexts."""
+    if op[0] == "generate" and exp[0] == "ok":
+        sym = w.model.file
+        data = w.read_file()
+        if sym not in w.binding and isinstance(data, bytes):
+            w.binding[sym] = data
     if op[0] == "enter" and exp[0] == "ok":
         sym = w.model.objs[op[1]][1]
         if sym.startswith("G") and sym not in w.binding:
